@@ -2,7 +2,6 @@ use std::convert::TryFrom;
 use std::hash::{Hasher, Hash};
 use std::collections::{BTreeSet};
 use std::iter::FromIterator;
-use std::ops::{Add, Sub};
 
 use regex::Regex;
 
@@ -87,14 +86,14 @@ impl<'a, T: ColumnProvider> ExpressionExecutionEngine<'a, T> {
                 match (&left_value, &right_value) {
                     (Value::Timestamp(left), Value::Interval(right)) => {
                         return match operator {
-                            ArithmeticOperator::Add => Ok(Value::Timestamp(left.add(right.clone()))),
-                            ArithmeticOperator::Subtract => Ok(Value::Timestamp(left.sub(right.clone()))),
+                            ArithmeticOperator::Add => left.checked_add_signed(right.clone()).map(|value| Value::Timestamp(value)).ok_or(EvaluationError::UndefinedOperation),
+                            ArithmeticOperator::Subtract => left.checked_sub_signed(right.clone()).map(|value| Value::Timestamp(value)).ok_or(EvaluationError::UndefinedOperation),
                             _ => Err(EvaluationError::UndefinedOperation)
                         };
                     }
                     (Value::Interval(left), Value::Timestamp(right)) => {
                         return match operator {
-                            ArithmeticOperator::Add => Ok(Value::Timestamp(right.add(left.clone()))),
+                            ArithmeticOperator::Add => right.checked_add_signed(left.clone()).map(|value| Value::Timestamp(value)).ok_or(EvaluationError::UndefinedOperation),
                             _ => Err(EvaluationError::UndefinedOperation)
                         };
                     }
@@ -138,8 +137,8 @@ impl<'a, T: ColumnProvider> ExpressionExecutionEngine<'a, T> {
                     },
                     |x, y| {
                         match operator {
-                            ArithmeticOperator::Add => { Some(Value::Interval(x + y)) }
-                            ArithmeticOperator::Subtract => { Some(Value::Interval(x - y)) }
+                            ArithmeticOperator::Add => { x.checked_add(&y).map(|value| Value::Interval(value)) }
+                            ArithmeticOperator::Subtract => { x.checked_sub(&y).map(|value| Value::Interval(value)) }
                             ArithmeticOperator::Multiply => { None }
                             ArithmeticOperator::Divide => { None }
                         }
